@@ -173,6 +173,9 @@ def _parse_genes(chrom: str, db: FeatureDB) -> List[Dict]:
 
         if Biotype.has_name(gene_biotype):
             gene_biotype = Biotype[gene_biotype]
+        elif gene_biotype == UNKNOWN_BIOTYPE:
+            # the GFF3 exporter's placeholder for a gene without biotype
+            gene_biotype = None
         elif gene_biotype:
             gene_qualifiers["provided_biotype"] = [gene_biotype]
             gene_biotype = None
